@@ -56,8 +56,10 @@ class C05(LoopSpec):
             return [mkjob("R1", 4, True, sym_body=["periodic"]), mkjob("R2", 4, True), mkjob("R3", 4, False),
                     mkjob("R2", 3, False, sym_shutdown=True), mkjob("R1", 3, True, period="sym"),
                     mkjob("R3", 3, True, period=0.05, sym_body=["periodic"]), mkjob("R4", 3, True),
-                    mkjob("R2", 3, True, fms=True, faults=1, fault_patterns=["later", "always"], fault_sites=["c1.execute", "c2.execute", "robot.teleopPeriodic"])]
-        return [mkjob("R1", 5, True, sym_body=["periodic"]), mkjob("R2", 6, True), mkjob("R3", 6, False),
+                    mkjob("R2", 3, True, fms=True, faults=1, fault_patterns=["later", "always"], fault_sites=["c1.execute", "c2.execute", "robot.teleopPeriodic"]),
+                    # feedback publishers, own and inherited (R2: c2's class inherits c1's getter)
+                    mkjob("R2", 3, True, with_feedbacks=True), mkjob("R6", 2, True)]
+        return [mkjob("R1", 5, True, sym_body=["periodic"]), mkjob("R2", 6, True), mkjob("R3", 6, False), mkjob("R2", 4, True, with_feedbacks=True), mkjob("R6", 4, True),
                 mkjob("R2", 5, True, sym_shutdown=True), mkjob("R1", 4, True, raw_words=True),
                 mkjob("R3", 3, True, change_at_dispatch=True), mkjob("R1", 4, True, period="sym", sym_body=["periodic"]),
                 mkjob("R2", 4, True, period=0.005)]
@@ -66,7 +68,12 @@ class C05(LoopSpec):
         return ["iteration-teleop", "iteration-auto", "iteration-disabled", "iteration-test", "timing-grid"]
 
     def path_fn(self, c, job):
-        H = lcm.run_robot(c, job)
+        opts = {}
+        if job["cfg"].get("with_feedbacks"):
+            from harness.c10 import add_feedbacks
+
+            opts["feedbacks"] = add_feedbacks
+        H = lcm.run_robot(c, job, opts)
         c.prove("C05.run no-exception", H.outcome[0] == "normal", info=dict(outcome=str(H.outcome)))
         lc.clauses_structure(c, H, "C05", timing=True, lifecycle=False, order=True)
         lc.clauses_liveness(c, H, "C05")
@@ -134,6 +141,9 @@ class C07(LoopSpec):
                     mkjob("R1", 3, True, fms="per-refresh", faults=1, fault_patterns=["always"]),
                     # faults that are not Exception subclasses (SystemExit-like) are user-callback exceptions too
                     mkjob("R2", 3, True, fms="sym", faults=1, fault_patterns=["first"], fault_kind="base"),
+                    # two faulty sites without the FMS: the first exception ends the program, nothing else of the user's runs
+                    mkjob("R1", 2, True, fms=False, faults=2, fault_patterns=["always"],
+                          fault_sites=["auto.on_iteration", "c1.execute", "robot.teleopPeriodic", "c1.on_disable", "c2.on_disable", "auto.on_disable"]),
                     # any kind of exception (AttributeError, TypeError, KeyError, StopIteration, ...) at the lifecycle hooks
                     mkjob("R1", 2, True, fms="sym", faults=1, fault_patterns=["first"], fault_kind="any",
                           fault_sites=["c1.on_enable", "c2.on_disable", "c1.execute", "robot.teleopInit", "auto.on_enable"])]
@@ -142,7 +152,8 @@ class C07(LoopSpec):
                 mkjob("R3", 4, False, fms="sym", faults=1, sym_shutdown=True),
                 mkjob("R2", 3, True, fms="per-refresh", faults=1, fault_patterns=["always", "later"]),
                 mkjob("R1", 4, True, fms="sym", faults=1, fault_patterns=["first", "always"], fault_kind="base"),
-                mkjob("R2", 3, True, fms="sym", faults=1, fault_patterns=["first", "later"], fault_kind="any")]
+                mkjob("R2", 3, True, fms="sym", faults=1, fault_patterns=["first", "later"], fault_kind="any"),
+                mkjob("R2", 3, True, fms=False, faults=2, fault_patterns=["always", "later"])]
 
     def reach_required(self, tier):
         return ["fault-swallowed", "fault-propagated", "no-fault-fired", "iteration-auto", "iteration-teleop",
